@@ -30,6 +30,23 @@ Fixpoint frun_history (nested : bool) (mc : machine) (ev : env) (m : model) (hs 
       end
   end.
 
+(* ---------------- sub-kind 4: unqueued calls on several models, positions running on ---------------- *)
+Definition mstate_of (w : list (model * state)) (m : model) : state :=
+  match lookup w m with Some s => s | None => 0 end.
+
+Fixpoint frun_mhistory (nested : bool) (mc : machine) (ev : env) (hs : list (model * hcall))
+                       (p : nat) (w : list (model * state)) : list sx :=
+  match hs with
+  | [] => []
+  | (m, h) :: rest =>
+      match frun_one nested mc ev m h p (mstate_of w m) with
+      | (tr, s', r) =>
+          let w' := set_state w m s' in
+          L [e_list e_item tr; e_result r; e_list (e_pair e_nat e_nat) w']
+          :: frun_mhistory nested mc ev rest (p + length tr) w'
+      end
+  end.
+
 (* ---------------- sub-kind 1: queued, several models ---------------- *)
 Section QInst.
   Variable nested : bool.
@@ -95,6 +112,14 @@ Definition run_factory_case (x : sx) : sx :=
       | Some mc, Some ev, Some ms, Some hs =>
           L [N 1; L [L (map (fun ms0 => L (frun_history false mc ev (fst ms0) hs 0 (snd ms0))) ms);
                      L (map (fun ms0 => L (frun_history true mc ev (fst ms0) hs 0 (snd ms0))) ms)]]
+      | _, _, _, _ => L [N 0]
+      end
+  | L [N 4; L [mcx; evx; msx; hx]] =>
+      (* calls model.trigger(..) / model.<event>(..) on several models of one unqueued machine; registering or
+         removing models in between is invisible here — that it is invisible on every class is what is checked *)
+      match d_machine mcx, d_env evx, d_list (d_pair d_nat d_nat) msx, d_list (d_pair d_nat d_call) hx with
+      | Some mc, Some ev, Some ms, Some hs =>
+          L [N 1; L [L (frun_mhistory false mc ev hs 0 ms); L (frun_mhistory true mc ev hs 0 ms)]]
       | _, _, _, _ => L [N 0]
       end
   | L [N 2; L [g; n; l; y]] =>
